@@ -510,7 +510,23 @@ class MustWrites:
         out = {}
         for h in c.events(('loophead',)):
             st = h.e if isinstance(h.e, dict) else None
-            if not st or st.get('s') != 'rfor' or not st.get('extent') or st['extent'] < 1:
+            if not st:
+                continue
+            if st.get('s') == 'rfor':
+                if not st.get('extent') or st['extent'] < 1:
+                    continue
+            elif st.get('s') in ('for', 'while'):
+                # a counted loop over a constant, non-empty range with no early exit runs its body (at least once, for every index)
+                from . import loops as _loops
+                b = _loops.bounded(fn, st)
+                if not b or b['problems'] or b['extra_conds'] or b['per_iteration'] != 1 or b['start'] is None or b['bound_val'] is None:
+                    continue
+                if not ((b['bound_op'] == '<' and b['bound_val'] > b['start']) or (b['bound_op'] == '<=' and b['bound_val'] >= b['start']) or
+                        (b['bound_op'] == '!=' and b['bound_val'] > b['start'])):
+                    continue
+                if _loops.has_jump(_loops.classify(st) if st.get('s') == 'for' else type('L', (), {'body': st.get('body')})()):
+                    continue
+            else:
                 continue
             x = h.succ[0][0] if h.succ else None
             hops = 0
